@@ -53,7 +53,7 @@ def units(bins, tier, seed):
     for i in range(p["net"]):
         us.append(Unit("c06_sessions.net%d" % i, [b], env={"RC_PARAMS": rc_params(seed * 1000 + 100 + i, p["net_cases"], p["maxlen"]), "C06_MAXLEN": p["maxlen"],
                                                             "C06_STORAGE": "network"}, group="histories-network", timeout=1500 if tier == "quick" else 6000))
-    # hand-kept regression cases (the defect fixed by 02b1ca1 must stay fixed); failures keep the signature of the defect
+    # hand-kept regression cases (the defect fixed by 752e2e8 must stay fixed); failures keep the signature of the defect
     for j, case in enumerate(sorted(glob.glob(os.path.join(verif.VERIF, "replays", ID, "known-*.case")))):
         us.append(Unit("c06_sessions.regress%d" % j, [b, "--regress", case], group="regress"))
     return us
@@ -101,7 +101,7 @@ MUTATIONS = [
     dict(name="fixed-deadline-moves-on-write", edits=[("src/session_interface.cpp", "\tif(how_==browser || how_==renew || (how_==fixed && new_session_))", "\tif(how_==browser || how_==renew || how_==fixed)")]),
     # own: cookie of an existing fixed session gets the full period again (cookie outlives the session)
     dict(name="fixed-cookie-age-full-period", edits=[("src/session_interface.cpp", "\tif(how_==renew || ( how_==fixed && new_session_ ))", "\tif(how_==renew || how_==fixed)")]),
-    # regression of the defect fixed by 02b1ca1: cookies of exposed keys are sent only when the key changed
+    # regression of the defect fixed by 752e2e8: cookies of exposed keys are sent only when the key changed
     dict(name="exposed-cookies-only-sent-on-change-regression", edits=[("src/session_interface.cpp", "\t\tif(p->second.exposed) {\n\t\t\tset_session_cookie(cookie_age(),p->second.value,p->first);",
           "\t\tif(p->second.exposed && (force || p2==data_copy_.end() || !p2->second.exposed || p->second.value!=p2->second.value)){\n\t\t\tset_session_cookie(cookie_age(),p->second.value,p->first);")]),
     # own: the cookie of an exposed key gets the full period instead of the session cookie's remaining life time
